@@ -254,7 +254,7 @@ func runFreeWire(t *testing.T, rc *RunCtx) {
 		readers := 4 + ch.Pick(12, 0)
 		var done atomic.Bool
 		var wgC, wgR sync.WaitGroup
-		var panics atomic.Value
+		var panics, unanswered atomic.Value
 		var reads, created atomic.Int64
 		keys := [][]byte{}
 		for _, a := range n.Pop.Accts[:8] {
@@ -270,8 +270,8 @@ func runFreeWire(t *testing.T, rc *RunCtx) {
 			go func(cIdx int) {
 				defer wgC.Done()
 				ctx := n.Inst.ClientCtx("client1", "")
-				for i := 0; i < perCreator; i++ {
-					_, _, p, _ := callGuarded(60*time.Second, func() (proto.Message, error) {
+				for i := 0; i < perCreator && unanswered.Load() == nil; i++ {
+					_, _, p, answered := callGuarded(30*time.Second, func() (proto.Message, error) {
 						r, err := n.Inst.AcctH.Generate(ctx, &pb.GenerateRequest{Account: fmt.Sprintf("Wallet 1/churn %d %d %d", rc.Seed%1000, cIdx, i), Passphrase: []byte("pass"), Participants: 1, SigningThreshold: 1})
 						if err == nil && r.GetState() == pb.ResponseState_SUCCEEDED {
 							created.Add(1)
@@ -280,6 +280,10 @@ func runFreeWire(t *testing.T, rc *RunCtx) {
 					})
 					if p != "" {
 						panics.Store("AccountManager.Generate: " + p)
+					}
+					if !answered {
+						unanswered.Store(fmt.Sprintf("AccountManager.Generate (creation %d of creator %d, after %d requests of %d other clients)", i, cIdx, reads.Load(), readers))
+						return
 					}
 					switch i % 4 {
 					case 1:
@@ -299,16 +303,29 @@ func runFreeWire(t *testing.T, rc *RunCtx) {
 				// Half of the readers are clients without any permission: their requests end right after the
 				// account lookup, so they perform lookups at a much higher rate.
 				ctx := n.Inst.ClientCtx([]string{"client1", "nobody", "client2", "nobody"}[rIdx%4], "")
-				for u := uint64(0); !done.Load(); u++ {
+				for u := uint64(0); !done.Load() && unanswered.Load() == nil; u++ {
 					var p string
+					var answered bool
+					what := "Signer.Sign by public key"
 					if rIdx%8 == 6 {
-						_, _, p, _ = callGuarded(60*time.Second, func() (proto.Message, error) {
+						what = "Lister.ListAccounts"
+						_, _, p, answered = callGuarded(30*time.Second, func() (proto.Message, error) {
 							return n.Inst.ListerH.ListAccounts(ctx, &pb.ListAccountsRequest{Paths: []string{"Wallet 1"}})
 						})
+					} else if rIdx%8 == 5 && u%3 == 0 {
+						// now and then a name nobody has: an ordinary mistake of a client
+						what = "Signer.Sign for an account that does not exist"
+						_, _, p, answered = callGuarded(30*time.Second, func() (proto.Message, error) {
+							return n.Inst.SignerH.Sign(ctx, &pb.SignRequest{Id: &pb.SignRequest_Account{Account: fmt.Sprintf("Wallet 1/No such account %d", u)}, Data: h32("churn", rIdx, u), Domain: MkDomain([4]byte{7, 0, 0, 0}, u)})
+						})
 					} else {
-						_, _, p, _ = callGuarded(60*time.Second, func() (proto.Message, error) {
+						_, _, p, answered = callGuarded(30*time.Second, func() (proto.Message, error) {
 							return n.Inst.SignerH.Sign(ctx, &pb.SignRequest{Id: &pb.SignRequest_PublicKey{PublicKey: keys[int(u)%len(keys)]}, Data: h32("churn", rIdx, u), Domain: MkDomain([4]byte{7, 0, 0, 0}, u)})
 						})
+					}
+					if !answered && p == "" {
+						unanswered.Store(what + " during the churn phase")
+						return
 					}
 					reads.Add(1)
 					if p != "" {
@@ -327,6 +344,9 @@ func runFreeWire(t *testing.T, rc *RunCtx) {
 		desc = append(desc, fmt.Sprintf("churn %d creators x %d, %d readers", creators, perCreator, readers))
 		if p, _ := panics.Load().(string); p != "" {
 			rc.Violate("C20", "panic-in-handler", p, volleys)
+		}
+		if u, _ := unanswered.Load().(string); u != "" && len(rc.Viol) == 0 {
+			rc.Violate("C20", "request-never-answered", fmt.Sprintf("%s got neither a response nor an error within 30 s while accounts were being created (%d created so far)", u, created.Load()), volleys)
 		}
 	}
 	// Canary.
